@@ -23,12 +23,12 @@ LM_OK = {("se2", "r2"), ("se3", "r3"), ("r2", "r2"), ("r3", "r3")}
 
 RULE = ("complete enumeration of %d configurations: edge kind (odometry, landmark) x pose class of each endpoint (1..3 endpoints, 4 classes) x estimate class (4 poses + ndarray) "
         "x offset class (4 poses + None, landmark only) x information shape (n x n for n=1..7 and 3 non-square) x all ids present / one id absent (the edge fresh, or pre-bound to the named vertex objects / to stale twins from an earlier graph); case i is configuration "
-        "i mod N under variant i div N (vertex list order, id class and extra unrelated vertices randomised per variant; quick: 1 variant, thorough: 12); followed by binding cases: the 8 consistent configurations and whole cluster graphs under random list orders / hostile ids. distinct = configuration "
+        "i mod N under variant i div N (vertex list order, id class and extra unrelated vertices randomised per variant; quick: 1 variant, thorough: 12); followed by binding cases: the 8 consistent configurations and whole cluster graphs under random list orders / hostile ids, look-alike pairs (a consistent edge next to one that deviates in a single attribute), and construction through the file entry point with ids beyond 2^53. distinct = configuration "
         "x variant; non-trivial = every configuration (each is a different point of the finite space)." % NCOMBO)
 NBIND = {"quick": 1200, "thorough": 40000}
 PLAN = {
     "quick": {"cases": NCOMBO + NBIND["quick"], "soft_s": 100, "min_nontrivial": NCOMBO, "require": ["eval:accept-iff-consistent", "eval:bound-by-id", "eval:accepted-edge-usable", "consistent_configurations",
-                                                                                  "inconsistent_configurations", "edge_prebound:named", "edge_prebound:stale"]},
+                                                                                  "inconsistent_configurations", "edge_prebound:named", "edge_prebound:stale", "lookalike_pairs", "file_binding_cases"]},
     "thorough": {"cases": NCOMBO * 12 + NBIND["thorough"], "soft_s": 1200, "min_nontrivial": NCOMBO * 12, "require": ["eval:accept-iff-consistent", "eval:bound-by-id", "eval:accepted-edge-usable",
                                                                                                 "consistent_configurations", "inconsistent_configurations"]},
 }
@@ -93,12 +93,99 @@ def binding_case(ctx, i, rng):
     ctx.nontrivial("bind:%d" % i)
 
 
+def make_edge_for(cfg, ids, vr):
+    kind, ep, est, off, info, present = cfg
+    estimate = np.array([0.5, 0.25]) if est == "ndarray" else M.mkpose(est, gen.mild_pose(vr, est))
+    information = np.eye(*info) if info[0] == info[1] else np.ones(info)
+    if kind == "odo":
+        return M.EdgeOdometry(list(ids), information, estimate)
+    offset = None if off == "none" else M.mkpose(off, gen.mild_pose(vr, off, 0.5))
+    return M.EdgeLandmark(list(ids), information, estimate, offset, offset_id=0)
+
+
+def lookalike_case(ctx, i, rng):
+    """Several edges in one list: a consistent edge followed (or preceded) by a look-alike that differs in exactly one attribute must still be refused -
+    every edge is judged on its own."""
+    good = CONSISTENT[(i // 3) % len(CONSISTENT)]
+    kind, ep, est, off, info, present = good
+    dev = int(rng.integers(3 if kind == "lm" else 2))
+    if dev == 0:
+        bad = (kind, ep, str(rng.choice([x for x in EST if x != est])), off, info, True)
+    elif dev == 1:
+        bad = (kind, ep, est, off, INFO[int(rng.integers(len(INFO)))], True)
+        if bad[4] == info:
+            bad = (kind, ep, est, off, (info[0] + 1, info[1] + 1), True)
+    else:
+        bad = (kind, ep, est, str(rng.choice([x for x in OFF if x != off])), info, True)
+    verts = [M.Vertex(j + 1, M.mkpose(k, gen.mild_pose(rng, k))) for j, k in enumerate(ep)]
+    ids = [v.id for v in verts]
+    eg, eb = make_edge_for(good, ids, rng), make_edge_for(bad, ids, rng)
+    order = [eg, eb] if rng.random() < 0.7 else [eb, eg]
+    if rng.random() < 0.3:
+        order = [eg, make_edge_for(good, ids, rng), eb]
+    raised = None
+    try:
+        M.Graph(order, verts)
+    except Exception as ex:
+        raised = type(ex).__name__
+    feats = {"where": "look-alike pair", "edge": kind, "endpoints": "-".join(ep), "deviation": ["estimate", "information", "offset"][dev], "bad_listed_first": order[0] is eb}
+    ctx.check("accept-iff-consistent", raised is not None, feats, {"raised": raised, "bad": {"estimate": bad[2], "offset": bad[3], "info": list(bad[4])}}, {"configuration": feats})
+    ctx.count("lookalike_pairs")
+    ctx.nontrivial("look:%d" % i)
+
+
+def file_binding_case(ctx, i, rng):
+    """Construction through the file entry point with ids beyond 2^53 (exact integers, not floats): edges attach to exactly the named vertices, an unknown neighbour id is refused."""
+    import os
+    import tempfile
+
+    base = int(rng.choice([2 ** 53, 2 ** 62, 2 ** 64, 10 ** 18 + 1])) + int(rng.integers(0, 1000))
+    ids = [base, base + 1, base + 2, base + 3]
+    k = str(rng.choice(["se2", "se3"]))
+    kp = R.POINT_OF[k]
+    vt = {"se2": "VERTEX_SE2 %d 0 0 0", "se3": "VERTEX_SE3:QUAT %d 0 0 0 0 0 0 1"}[k]
+    lt = {"r2": "VERTEX_XY %d 1 1", "r3": "VERTEX_TRACKXYZ %d 1 1 1"}[kp]
+    et = {"se2": "EDGE_SE2 %d %d 1 0 0 1 0 0 1 0 1", "se3": "EDGE_SE3:QUAT %d %d 1 0 0 0 0 0 1 " + " ".join(["1" if a == b else "0" for a in range(6) for b in range(a, 6)])}[k]
+    lm = {"se2": "EDGE_SE2_XY %d %d 1 1 1 0 1", "se3": "EDGE_SE3_TRACKXYZ %d %d 0 1 1 1 1 0 0 1 0 1"}[k]
+    lines = ["PARAMS_SE3OFFSET 0 0 0 0 0 0 0 1"] if k == "se3" else []
+    lines += [vt % ids[0], vt % ids[2], lt % ids[3], et % (ids[2], ids[0]), lm % (ids[0], ids[3])]
+    d = tempfile.mkdtemp(prefix="c18-", dir=os.environ.get("VF_SCRATCH"))
+    try:
+        pth = os.path.join(d, "ids.g2o")
+        with open(pth, "w") as f:
+            f.write("\n".join(lines) + "\n")
+        g = M.Graph.from_g2o(pth)
+        byid = {v.id: v for v in g._vertices}
+        ok = sorted(byid) == sorted([ids[0], ids[2], ids[3]]) and all(list(e.vertex_ids) == exp and all(ev is byid[vid] for ev, vid in zip(e.vertices, exp))
+                                                                    for e, exp in zip(g._edges, ([ids[2], ids[0]], [ids[0], ids[3]])))
+        ctx.check("bound-by-id", ok, {"where": "file entry point, ids beyond 2^53"}, {"ids": [str(x) for x in ids], "edge_ids": [[str(x) for x in e.vertex_ids] for e in g._edges]}, {"file": lines})
+        # the same file with an edge naming the *absent* neighbour id must be refused
+        with open(pth, "w") as f:
+            f.write("\n".join(lines + [et % (ids[1], ids[0])]) + "\n")
+        raised = None
+        try:
+            M.Graph.from_g2o(pth)
+        except Exception as ex:
+            raised = type(ex).__name__
+        ctx.check("accept-iff-consistent", raised is not None, {"where": "file entry point, ids beyond 2^53", "why": "edge names an absent neighbouring id"}, {"raised": raised}, {"file": lines})
+    finally:
+        import shutil
+
+        shutil.rmtree(d, ignore_errors=True)
+    ctx.count("file_binding_cases")
+    ctx.nontrivial("file:%d" % i)
+
+
 def run_case(ctx, i, rng):
     tier_n = NCOMBO if ctx.tier == "quick" else NCOMBO * 12
     if i >= tier_n:
-        if i % 2:
+        if i % 4 == 1:
             return binding_case(ctx, i, rng)
-        cfg = CONSISTENT[(i // 2) % len(CONSISTENT)]
+        if i % 4 == 2:
+            return lookalike_case(ctx, i, rng)
+        if i % 4 == 3:
+            return file_binding_case(ctx, i, rng)
+        cfg = CONSISTENT[(i // 4) % len(CONSISTENT)]
         variant = 1 + i
     else:
         cfg = COMBOS[i % NCOMBO]
